@@ -276,6 +276,67 @@ def check_gmd_bookkeeping(ctx: Ctx, rule: str = 'C20.f') -> None:
                       'for 5 or more singular values' % why, fn.path, st.lineno, operand='paired-update')
 
 
+def check_gmd_threshold(ctx: Ctx, rule: str, caller_paths) -> None:
+    """The GMD as the library uses it keeps EVERY singular value: the effective threshold is 0 (scale invariance)."""
+    from ..astutil import const_value
+    from ..model import walk_no_nested
+    M = ctx.model
+    ctx.rule(rule, 'gmd() as called by the library discards no singular value: the effective tolerance (argument or default) of every call '
+                   'is 0 - an absolute positive threshold is not scale invariant (a small-gain channel loses streams)', floor=2)
+    fn = M.func(MISC, 'gmd')
+    a = fn.node.args
+    params = [x.arg for x in a.posonlyargs + a.args]
+    tol_params = [p for p in params[3:]] + [x.arg for x in a.kwonlyargs]
+    # the parameter that thresholds the singular values: compared with the second parameter (S)
+    S = params[1]
+    thr = None
+    for n in walk_no_nested(fn.node):
+        if isinstance(n, ast.Compare) and len(n.ops) == 1 and isinstance(n.ops[0], (ast.GtE, ast.Gt, ast.Lt, ast.LtE)):
+            sides = [n.left, n.comparators[0]]
+            for x, y in (sides, sides[::-1]):
+                if isinstance(x, ast.Name) and x.id == S and isinstance(y, ast.Name) and y.id in tol_params:
+                    thr = y.id
+    if thr is None:
+        if not tol_params:
+            ctx.instance(rule, 'gmd:no-threshold')
+            ctx.instance(rule, 'gmd:no-threshold-parameter')
+            ctx.obligation(rule, 'gmd:no-threshold', True, {'parameters': params})
+            return
+        ctx.error(rule + ': gmd has extra parameters %s but none is compared with the singular values `%s` directly (relative or derived '
+                  'threshold): cannot tell' % (tol_params, S))
+    defaults = dict(zip(reversed([x.arg for x in a.posonlyargs + a.args]), reversed(a.defaults)))
+    defaults.update({k.arg: d for k, d in zip(a.kwonlyargs, a.kw_defaults) if d is not None})
+    pos = params.index(thr) if thr in params else None
+    for path in caller_paths:
+        mod = M.module(path)
+        fns = [f for c in mod.classes.values() for f in c.methods.values()] + list(mod.functions.values())
+        for f in fns:
+            for n in walk_no_nested(f.node):
+                if not (isinstance(n, ast.Call) and norm(n.func).split('.')[-1] == 'gmd'):
+                    continue
+                tgt = M.resolve_function(mod, n.func) if hasattr(M, 'resolve_function') else None
+                if tgt is not None and tgt is not fn:
+                    continue
+                arg = next((k.value for k in n.keywords if k.arg == thr), None)
+                if arg is None and pos is not None and len(n.args) > pos:
+                    arg = n.args[pos]
+                src = 'argument'
+                if arg is None:
+                    arg, src = defaults.get(thr), 'default'
+                construct = '%s:gmd(%s=%s)' % (f.qualname, thr, norm(arg) if arg is not None else '?')
+                ctx.instance(rule, construct)
+                v = const_value(arg) if arg is not None else None
+                if arg is None or not isinstance(v, (int, float)) or isinstance(v, bool):
+                    ctx.error(rule + ': the tolerance of the gmd call in %s is `%s`, not a numeric constant: cannot tell'
+                              % (f.qualname, norm(arg) if arg is not None else None))
+                ok = v == 0
+                ctx.obligation(rule, construct, ok, {'threshold_param': thr, 'source': src, 'value': v})
+                if not ok:
+                    ctx.violation(rule, f.qualname, 'gmd is called with the absolute tolerance %s=%r (%s): singular values below it are treated as '
+                                  'zero, so a channel whose gain is small (e.g. 1e-6 H) silently loses streams although its condition is '
+                                  'unchanged' % (thr, v, src), f.path, n.lineno, operand='gmd-tolerance')
+
+
 def synthetic():
     a = T.parse_spec('10 * log10(pow(10, x / 20.0))')
     return [('non-inverse-composition-detected', a != T.Term.sym('x')),
